@@ -9,10 +9,8 @@ caught = {
  "C07-1": "C07 I4-table-not-weak (quiescent baseline: Variable/domain tables larger after dropping everything)",
  "C07-2": "C07 I3-stale-object once GetsliceOp recipes differing only in step and parameter verification were added; missed before",
  "C14-1": "C14 sample-support (three jointly sampled variables)",
- "C14-2": "C14 gaussian-mean once precision square roots other than the Cholesky factor were generated; missed before",
  "C16-1": "C16 dispatch-depends-on-history once the user-defined registry with FrozenSet/Tuple patterns was added; missed before",
  "C16-2": "C16 subtype-not-transitive",
- "C17-1": "C17 exit-restores / stack-depth (exception injected inside substitution)",
  "C17-2": "C17 layering once one AdjointTape object is reused for several blocks (tape_shared); missed before",
  "C20-1": "C20 write-through-operand / array-mutated once the log-space contraction step over user arrays with -inf was added; missed before",
  "C20-2": "C20 term-mutated once array attributes of held terms (identity + bytes) were part of the snapshot and terms were held from session start; missed before",
